@@ -253,7 +253,8 @@ theorem gainReq_ok (s : State) (hW : WF s) (seg : Nat) (hseg : seg ≤ 1) :
 
 theorem swapGain_roundtrip' (s : State) (t : Tx) (hWF : WF s) (ht : TxOK t) (hf : Fresh s t)
     (seg value : Nat) (hseg : seg ≤ 1)
-    (g0 : sel s.stmMode seg = STM_MODE_GAIN ∧ sel s.stmCycle seg = 1) :
+    (g0 : sel s.stmMode seg = STM_MODE_GAIN ∧ sel s.stmCycle seg = 1)
+    (g2 : validateSilencerSettings s (sel s.stmDiv seg) (sel s.modDiv s.modSegment) = false) :
     ∃ t' s', Sends (.swapGain seg Drv.TRANSITION_MODE_IMMEDIATE value) s t t' s' ∧ WF s' ∧ TxOK t' ∧ Fresh s' t' ∧
       Obs.reqStmSeg s' = .ok seg ∧ Obs.stmTransition s' = .ok .syncIdx ∧ s'.stmSegment = seg ∧
       SwapSet s.stmSwap s'.stmSwap s.dcSysTime (Obs.stmRep s seg) (Obs.stmDiv s seg) (Obs.stmCycle s seg) seg .syncIdx ∧
@@ -276,7 +277,9 @@ theorem swapGain_roundtrip' (s : State) (t : Tx) (hWF : WF s) (ht : TxOK t) (hf 
     simp only [FwLayout.GainUpdate_segment_off, p1]
     rw [if_neg (by omega)]
     have g0' : sel s.stmMode seg = STM_MODE_GAIN ∧ sel s.stmCycle seg = 1 := g0
-    simp only [g0'.1, g0'.2, ne_eq, not_true_eq_false, or_self, if_false,
+    have g2' : validateSilencerSettings { s with lastMsgId := nextId t, rxData := r } (sel s.stmDiv seg)
+        (sel s.modDiv s.modSegment) = false := g2
+    simp only [g0'.1, g0'.2, g2', Bool.false_eq_true, ne_eq, not_true_eq_false, or_self, if_false,
       ctlWrite_main _ ADDR_STM_REQ_RD_SEGMENT _ (by decide), ctlWrite_main _ ADDR_STM_TRANSITION_MODE _ (by decide), ok_bind]
     rw [hu]; rfl
   · unfold Obs.reqStmSeg segReg
